@@ -32,7 +32,8 @@ def main():
         r = json.loads(line)
         try:
             errs = []
-            for d in [r["doc"]] + list(r.get("extra") or []):   # every YAML document of the file, as an editor does
+            # every YAML document of the file, as an editor does (a null entry of "extra" is an empty document: nothing to validate)
+            for d in [r["doc"]] + [x for x in (r.get("extra") or []) if x is not None]:
                 errs += list(validators[r["file"]].iter_errors(d))
         except Exception as ex:  # e.g. a $ref that does not resolve: the published schema cannot be used on this document
             out.write(json.dumps({"id": r["id"], "accept": False, "class": "structure", "keys": [], "keywords": ["schema-error:#"],
